@@ -153,19 +153,19 @@ type Run struct {
 	only    string
 	wall    float64
 
-	engines   []*Engine
-	units     []*Unit
-	obls      []*Obligation
-	reports   []funcReport
-	failures  []*Obligation
-	bindErrs  []*Obligation
-	deadReturns []string
-	scratchDir string
-	known     []string
-	violations int
-	machinery []string
-	notes     []string
-	external  map[string]bool
+	engines          []*Engine
+	units            []*Unit
+	obls             []*Obligation
+	reports          []funcReport
+	failures         []*Obligation
+	bindErrs         []*Obligation
+	deadReturns      []string
+	scratchDir       string
+	known            []string
+	violations       int
+	machinery        []string
+	notes            []string
+	external         map[string]bool
 	assumedContracts map[string]bool
 }
 
